@@ -6,6 +6,8 @@ import (
 	"go/token"
 	"go/types"
 	"os"
+	"path/filepath"
+	"regexp"
 	"sort"
 	"strings"
 
@@ -13,6 +15,8 @@ import (
 	"golang.org/x/tools/go/ssa"
 	"golang.org/x/tools/go/ssa/ssautil"
 )
+
+var errFileRe = regexp.MustCompile(`(/[^\s:]+\.go):\d+`)
 
 // ModPath is the module under analysis.
 const ModPath = "github.com/google/certificate-transparency-go"
@@ -47,6 +51,36 @@ func Load(root string) (*Prog, error) {
 	}
 	overlay, note := buildInlineOverlay(root, env)
 	p, err := loadWith(root, env, overlay)
+	// the normalised source must type-check.  Everything the normaliser changes is unexported, so packages are
+	// independent: the normalised files of a package that does not type-check are dropped, the others kept
+	for try := 0; try < 3 && err != nil && len(overlay) > 0; try++ {
+		bad := map[string]bool{}
+		for _, m := range errFileRe.FindAllStringSubmatch(err.Error(), -1) {
+			bad[filepath.Dir(m[1])] = true
+		}
+		dropped := 0
+		for f := range overlay {
+			if bad[filepath.Dir(f)] {
+				delete(overlay, f)
+				dropped++
+			}
+		}
+		if dropped == 0 {
+			break
+		}
+		var dirs []string
+		for d := range bad {
+			if r, e := filepath.Rel(root, d); e == nil {
+				dirs = append(dirs, r)
+			}
+		}
+		sort.Strings(dirs)
+		note.Skipped = append(note.Skipped, "normalised source of "+strings.Join(dirs, ", ")+" rejected ("+firstLines(err.Error(), 3)+"): analysed as it is")
+		if len(overlay) == 0 {
+			overlay = nil
+		}
+		p, err = loadWith(root, env, overlay)
+	}
 	if err != nil && overlay != nil {
 		// the normalised source must type-check; otherwise analyse the tree as it is
 		note.Skipped = append(note.Skipped, "normalised source rejected ("+firstLines(err.Error(), 3)+"): helpers left alone")
